@@ -12,6 +12,7 @@ package memfs
 
 //@ pred perr(e error, inner error) := e != nil && e is *fs.PathError && e.(*fs.PathError).Err == inner
 //@ pred lerr(e error, inner error) := e != nil && e is *os.LinkError && e.(*os.LinkError).Err == inner
+//@ pred notExist(v *MemFS, e error) := e == v.err.NoSuchDir || e == v.err.NoSuchFile
 //@ pred walkLast(pi *avfs.PathIterator[*MemFS]) := pi.end == len(pi.path)
 
 // stat(2), lstat(2): the walk decides.
@@ -51,19 +52,19 @@ package memfs
 // intermediate component is missing or is not a directory, EACCES without write permission.
 //@ func (*MemFS).Mkdir
 //@   ensures[C01] name == "" ==> perr(r0, vfs.err.NoSuchDir)
-//@   ensures[C01] name != "" && result(vfs.searchNode, 3) == vfs.err.FileExists ==> perr(r0, vfs.err.FileExists)
-//@   ensures[C01] name != "" && !(result(vfs.searchNode, 1) == nil && walkLast(result(vfs.searchNode, 2))) ==> perr(r0, result(vfs.searchNode, 3))
-//@   ensures[C01] r0 == nil ==> result(vfs.searchNode, 1) == nil && walkLast(result(vfs.searchNode, 2))
-//@   ensures[C01] name != "" && result(vfs.searchNode, 1) == nil && walkLast(result(vfs.searchNode, 2)) && r0 != nil ==> perr(r0, vfs.err.PermDenied) || perr(r0, vfs.err.FileExists)
+//@   ensures[C01] called(vfs.searchNode) ==> (result(vfs.searchNode, 3) == vfs.err.FileExists ==> perr(r0, vfs.err.FileExists))
+//@   ensures[C01] called(vfs.searchNode) ==> (!(notExist(vfs, result(vfs.searchNode, 3)) && walkLast(result(vfs.searchNode, 2))) ==> perr(r0, result(vfs.searchNode, 3)))
+//@   ensures[C01] r0 == nil ==> called(vfs.searchNode) && notExist(vfs, result(vfs.searchNode, 3)) && walkLast(result(vfs.searchNode, 2))
+//@   ensures[C01] called(vfs.searchNode) ==> (notExist(vfs, result(vfs.searchNode, 3)) && walkLast(result(vfs.searchNode, 2)) && r0 != nil ==> perr(r0, vfs.err.PermDenied) || perr(r0, vfs.err.FileExists))
 
 // symlink(2), link(2): the new name must be missing in an existing directory.
 //@ func (*MemFS).Symlink
 //@   ensures[C01] result(vfs.searchNode, 3) == vfs.err.FileExists ==> lerr(r0, vfs.err.FileExists)
-//@   ensures[C01] r0 == nil ==> result(vfs.searchNode, 1) == nil && walkLast(result(vfs.searchNode, 2))
-//@   ensures[C01] !(result(vfs.searchNode, 1) == nil && walkLast(result(vfs.searchNode, 2))) ==> lerr(r0, result(vfs.searchNode, 3))
+//@   ensures[C01] r0 == nil ==> notExist(vfs, result(vfs.searchNode, 3)) && walkLast(result(vfs.searchNode, 2))
+//@   ensures[C01] !(notExist(vfs, result(vfs.searchNode, 3)) && walkLast(result(vfs.searchNode, 2))) ==> lerr(r0, result(vfs.searchNode, 3))
 //@ func (*MemFS).Link
 //@   ensures[C01] result("vfs.searchNode#0", 3) != vfs.err.FileExists ==> lerr(r0, result("vfs.searchNode#0", 3))
-//@   ensures[C01] r0 == nil ==> ncalls(vfs.searchNode) == 2 && result("vfs.searchNode#1", 1) == nil && walkLast(result("vfs.searchNode#1", 2))
+//@   ensures[C01] r0 == nil ==> ncalls(vfs.searchNode) == 2 && notExist(vfs, result("vfs.searchNode#1", 3)) && walkLast(result("vfs.searchNode#1", 2))
 //@   ensures[C01] r0 == nil ==> result("vfs.searchNode#0", 1) is *fileNode
 
 // unlink(2), rmdir(2) through os.Remove: the walk decides; ENOTEMPTY for a directory with entries.
@@ -75,5 +76,5 @@ package memfs
 // exist; a directory is never replaced (EEXIST, Go's rule) and never replaces a file (ENOTDIR).
 //@ func (*MemFS).Rename
 //@   ensures[C01] result("vfs.searchNode#0", 3) != vfs.err.FileExists ==> lerr(r0, result("vfs.searchNode#0", 3))
-//@   ensures[C01] r0 == nil && ncalls(vfs.searchNode) == 2 ==> result("vfs.searchNode#1", 3) == vfs.err.FileExists || (result("vfs.searchNode#1", 1) == nil && walkLast(result("vfs.searchNode#1", 2)))
+//@   ensures[C01] r0 == nil && ncalls(vfs.searchNode) == 2 && result("vfs.searchNode#1", 1) == nil ==> walkLast(result("vfs.searchNode#1", 2))
 //@   ensures[C01] ncalls(vfs.searchNode) == 2 && result("vfs.searchNode#0", 1) is *dirNode && result("vfs.searchNode#1", 3) == vfs.err.FileExists && result("vfs.searchNode#1", 1) is *fileNode && vfs.osType != avfs.OsWindows && old(oldpath) != old(newpath) ==> r0 == nil || lerr(r0, vfs.err.NotADirectory) || lerr(r0, vfs.err.PermDenied) || lerr(r0, vfs.err.InvalidArgument)
